@@ -138,12 +138,8 @@ func (w *World) signTx(accNum, seq uint64, r TxReq) ([]byte, error) {
 	return w.App.TxConfig().TxEncoder()(tx)
 }
 
-// Block advances time by dt, delivers the txs (signed against the state as of
-// the previous commit plus the in-block sequence increments) and commits.
-func (w *World) Block(dt time.Duration, txs []TxReq) (res BlockRes) {
-	w.Time = w.Time.Add(dt)
-	height := w.App.LastBlockHeight() + 1
-	res.Height = height
+// SignTxs signs the txs against the state as of the previous commit plus the in-block sequence increments.
+func (w *World) SignTxs(txs []TxReq) [][]byte {
 	ctx := w.Ctx()
 	seqBump := map[string]uint64{}
 	var raw [][]byte
@@ -160,6 +156,19 @@ func (w *World) Block(dt time.Duration, txs []TxReq) (res BlockRes) {
 		seqBump[r.Signer.Addr.String()] = bump + 1
 		raw = append(raw, bz)
 	}
+	return raw
+}
+
+// Block advances time by dt, delivers the txs and commits.
+func (w *World) Block(dt time.Duration, txs []TxReq) (res BlockRes) {
+	return w.Deliver(dt, w.SignTxs(txs))
+}
+
+// Deliver advances time by dt, delivers already-signed tx bytes through FinalizeBlock and commits.
+func (w *World) Deliver(dt time.Duration, raw [][]byte) (res BlockRes) {
+	w.Time = w.Time.Add(dt)
+	height := w.App.LastBlockHeight() + 1
+	res.Height = height
 	func() {
 		defer func() {
 			if r := recover(); r != nil {
